@@ -12,8 +12,8 @@
    Schedules: every [sched_ok] schedule -- the task is stepped when enabled, status objects complete
    successfully at any time, pause requests (hard or deferred) and suspension requests (no pre/post plans)
    arrive at ANY time and any number of times (accepted or refused, also during a replay, inside a command that
-   waits on a future, while paused, and in the final sleep), except while a suspension keeps rewinding switched
-   off; suspensions are released at any time; resume() is called when the engine is paused.
+   waits on a future, while paused, in the final sleep, and while an earlier suspension keeps rewinding switched
+   off: Proofs/RE_PointsEx3.v); suspensions are released at any time; resume() is called when the engine is paused.
 
    [c03_run_matches_reference]: when the call has finished, the events recorded are exactly the events of the
    reference run (as a set: an event re-emitted after an interruption carries the same run, stream, seq_num AND
